@@ -1,8 +1,6 @@
-import ShVerif.Model.C26
+import ShVerif.Proofs.C26p
+import ShVerif.Proofs.C26q
 /-
-  C26 — helper lemmas for ShVerif/Props/C26.lean.  Core Lean only.
+  C26 — helper lemmas for ShVerif/Props/C26.lean (the simulation between the interpreter model and
+  `BashSem` is in ShVerif/Proofs/C26a … C26p, fuel monotonicity in C26q).  Core Lean only.
 -/
-namespace ShVerif.C26
-open ShVerif.L5
-
-end ShVerif.C26
